@@ -19,7 +19,7 @@ the real code by the correspondence run):
 * the metadata and checksum side files are written after the rename, each by its own `fs::write`: a fault between
   leaves new content with old side files, and a failing side-file write answers an error although the content
   was replaced. `C19_sidefiles_never_ahead` is the half that does hold;
-  `complete_multipart_upload` (since 0932917) has the same shape: it validates the part list and the part files, assembles
+  `complete_multipart_upload` (since 0096ef4) has the same shape: it validates the part list and the part files, assembles
   the content, renames it into place and only then moves the upload's metadata, removes the part files and the upload
   record — so a complete that fails or is abandoned before the rename changes nothing at all
   (`C19_complete_all_or_nothing`, `C19_failed_complete_changes_nothing`), and what can lag after the rename is again only
@@ -167,7 +167,7 @@ theorem C19_upload_part_all_or_nothing (c : Cfg) (old : Option Bytes) (m i : Sid
     the size rule — the parts concatenated in order; up to the last step before the rename (`k ≤ 2n + 4`) it holds the
     previous content; and as long as the destination has not been replaced by the complete new content nothing else
     has changed either: the metadata and the checksum record are the previous object's, the upload record exists and no
-    part file has been removed (before 0932917 the upload record was removed and the metadata replaced first:
+    part file has been removed (before 0096ef4 the upload record was removed and the metadata replaced first:
     `S3V.Findings.C19.complete_metadata_early_*`, now regression facts). -/
 theorem C19_complete_all_or_nothing (c : Cfg) (old : Option Bytes) (m i : Side) (k : Nat) (hk : k ≠ c.parts.length + 2) :
     let s := dropAfter k (completeProg c) (initSt old m i)
@@ -243,7 +243,7 @@ theorem C19_failed_complete_changes_nothing (c : Cfg) (old : Option Bytes) (m i 
 
 /-- **A successful `complete_multipart_upload` stores everything.** Every listed part exists and passes the size rule, no
     fault: the answer is OK, the destination holds the parts concatenated in order, the metadata is the upload's — none if it
-    has none: a previous object's metadata does not survive (cf67827) —, the checksum record is new (empty), the upload
+    has none: a previous object's metadata does not survive (47e9b00) —, the checksum record is new (empty), the upload
     record and every listed part file are gone, no temporary file. -/
 theorem C19_successful_complete (c : Cfg) (old : Option Bytes) (m i : Side) (all : Bytes)
     (hb : allParts c.parts = some all) (h1 : c.mkdirsFails = false) (h2 : c.renameFails = false)
